@@ -256,4 +256,14 @@ pub mod verif_hooks {
     use super::*;
 
     pub use super::{BlobLocation, BlobLocations, BlobTypeMap};
+
+    /// `BlobLocations { offset, length, .. }.coalesce(from_blob_location(next))` -> merged (offset, length)
+    pub fn coalesce(cur: (u32, u32), next: (u32, u32)) -> Option<(u32, u32)> {
+        let cur: BlobLocations<()> = BlobLocations { offset: cur.0, length: cur.1, blobs: SmallVec::new() };
+        let next = BlobLocations::from_blob_location(
+            BlobLocation { offset: next.0, length: next.1, uncompressed_length: None },
+            (),
+        );
+        cur.coalesce(next).ok().map(|g| (g.offset, g.length))
+    }
 }
